@@ -17,6 +17,9 @@ package record
 //@ func (*ColVal).BytesUnsafe
 //@   trusted reads the column buffer only
 //@   assigns nothing
+//@ func (*ColVal).AppendInteger
+//@   trusted appends to its receiver only
+//@   assigns cv.Val, cv.Offset, cv.Bitmap, cv.BitMapOffset, cv.Len, cv.NilCount
 //@ func (*ColVal).IsNil
 //@   trusted reads the bitmap only
 //@   assigns nothing
